@@ -131,6 +131,20 @@ func solveOne(o *Oblig, t *Trans, opt SolveOpts) *Result {
 	if t.uses["strtheory"] {
 		first = "cvc5"
 	}
+	// Vacuity guards (covers) must see the quantified hypotheses: contradictory axioms or preconditions make the
+	// FULL context unsatisfiable while the relaxed one stays satisfiable. The full query is tried first with a short
+	// budget: "unsat" is a vacuity failure; "sat"/"unknown" falls through to the cheaper relaxed check below.
+	if want == "sat" && o.Kind == "prelude" {
+		sec := opt.QuickSec * 2
+		v, _, d, who := raceSolvers([]string{"z3-new", "z3"}, file, sec)
+		r.Tried = append(r.Tried, fmt.Sprintf("%s(full):%s:%.2fs", who, v, d))
+		r.TimeS += d
+		if v == "unsat" {
+			r.Solver = who
+			r.Verdict = "cover-fail"
+			return r
+		}
+	}
 	// Stage 0: the same query without its quantified hypotheses (prelude axioms, frame facts).
 	// Fewer hypotheses: an unsat answer is still a proof; a sat answer is only a candidate
 	// counterexample, confirmed by the full query below or by replay on the real code.
